@@ -273,13 +273,111 @@ def pull_path(ctx, job):
     ctx.ops += sum(p.value or 0 for p in res if p.kind == 'ok')
 
 
+# ---------------------------------------------------------------- source side: one scan pass (scan_and_migrate_keys)
+class ReadyFuture(PyObj):
+    def __init__(self, v): self.v = v
+    def m_poll(self, e, *a): return Enum('Poll', 0, [self.v])
+
+
+class ScanClient(PyObj):
+    """RedisClient stand-in in front of a storing Redis; SCAN batches are chosen by the environment"""
+    def __init__(self, redis, keys, env_batch): self.redis = redis; self.keys = keys; self.env_batch = env_batch
+    def run(self, e, cmd):
+        elems = [[c.v for c in deref_vec(x.v).cells] for x in deref_vec(cmd).cells]
+        name = X.as_bytes(elems[0]).upper()
+        if name == b'SCAN':
+            cur = int(X.as_bytes(elems[1]))
+            n = self.env_batch(len(self.keys) - cur)
+            batch = self.keys[cur:cur + n]; nxt = cur + n
+            if nxt >= len(self.keys): nxt = 0
+            return X.array(e, [X.bulk(e, list(str(nxt).encode())), X.array(e, [X.bulk(e, list(k)) for k in batch])])
+        if name == b'DEL':
+            cnt = 0
+            for k in elems[1:]:
+                if self.redis.db.pop(X.as_bytes(k), None) is not None: cnt += 1
+            self.redis.log.append((b'DEL', [X.as_bytes(k) for k in elems[1:]]))
+            return X.integer(e, cnt)
+        return self.redis.execute(e, elems)
+    def m_execute_single(self, e, s, cmd): return ReadyFuture(Ok(self.run(e, cmd)))
+    def m_execute_multi(self, e, s, cmds): return ReadyFuture(Ok(RVec([Cell(self.run(e, c.v)) for c in deref_vec(cmds).cells])))
+    def m_execute(self, e, s, opt):
+        o = un(opt)
+        if e.src.enums['OptionalMulti'][o.variant] == 'Single': return ReadyFuture(Ok(Enum('OptionalMulti', o.variant, [self.run(e, o.f[0].v)])))
+        return ReadyFuture(Ok(Enum('OptionalMulti', o.variant, [RVec([Cell(self.run(e, c.v)) for c in deref_vec(o.f[0].v).cells])])))
+    def m_quit(self, e, s): return ReadyFuture(Ok(mk_unit()))
+
+
+class DstFactory(PyObj):
+    def __init__(self, client): self.client = client
+    def m_create_client(self, e, s, addr): return ReadyFuture(Ok(self.client))
+
+
+def scan_pass(ctx, job):
+    """keep_migrating's loop around the real scan_and_migrate_keys: while another request holds the lock slot of a key
+    the key is skipped and must be retried; the scan may only report completion when no key of the range is left"""
+    from mirsym.models.misc import crc16_arc, crc16_xmodem
+    names = job['keys']
+    def setup(e): e.loop_budget = 100000
+    def run(e):
+        src, dst = Redis('src'), Redis('dst')
+        vals = {}
+        for i, k in enumerate(names):
+            vals[k] = [z3.BitVec('v%d_%d' % (i, j), 8) for j in range(1)]
+            src.db[k] = (list(vals[k]), -1)
+        srcc = ScanClient(src, list(names), lambda rem: 1 + e.choose(rem, 'scan-batch'))
+        dstc = ScanClient(dst, [], None)
+        rl = Struct('RangeList', [RVec([Cell(Struct('Range', [0, 16383]))])])
+        sra = e.run_func(e.find_fn('SlotRangeArray', 'new'), [rl])
+        mutex = Struct('SlotMutex', [RVec([Cell(Struct('Atomic', [False])) for _ in range(16384)])])
+        df = [f for f in e.mir.all_funcs if f.name.endswith('::default') and f.ret.endswith('MigrationStats')][0]
+        stats = e.run_func(df, [])
+        e.generic_env.update({'F': 'DstFactory', 'T': 'CmdCtx', 'C': 'ScanClient'})
+        fn = e.find_fn('ScanMigrationTask', 'scan_and_migrate_keys')
+        slots = {k: (crc16_arc(e, [Cell(b) for b in k]) % 16384) for k in names}
+        index = 0; finished = False; trace = []
+        cached = NONE()
+        holds = job['holds']
+        for call in range(job['calls']):
+            # other requests (UMSYNC of a key) may hold lock slots during this pass
+            held = []
+            for k in names:
+                if holds > 0 and e.choose(2, 'hold-%s' % k.decode()) == 1:
+                    cell = deref_vec(mutex.f[0].v).cells[slots[k]].v
+                    if not cell.f[0].v: cell.f[0].v = True; held.append(k); holds -= 1
+            fut = e.run_func(fn, [Ref(Cell(sra)), index, cached, Ref(Cell(srcc)), RStr('dst:6379'), Ref(Cell(DstFactory(dstc)), 'Arc'), 1, Ref(Cell(mutex)), Ref(Cell(stats))])
+            r = un(e.block_on(Ref(Cell(fut))))
+            for k in held: deref_vec(mutex.f[0].v).cells[slots[k]].v.f[0].v = False
+            if r.variant != 0:
+                trace.append('pass %d failed' % call); break
+            tup = un(r.f[0].v)
+            index = tup.f[0].v; finished = tup.f[1].v; cached = tup.f[2].v
+            trace.append('pass %d: held=%s -> next cursor %s finished=%s src=%s' % (call, [k.decode() for k in held], index, finished, sorted(k.decode() for k in src.db)))
+            if finished: break
+        def wit(m=None): return {'keys': [k.decode() for k in names], 'lock_slots': {k.decode(): slots[k] for k in names}, 'trace': trace,
+                                 'left_on_source': sorted(k.decode() for k in src.db), 'on_destination': sorted(k.decode() for k in dst.db)}
+        items = []
+        for k in names:
+            in_s = k in src.db; in_d = k in dst.db
+            items.append(('key-never-lost', 'C03/scan-lost-a-key', in_s or in_d, wit))
+            items.append(('key-not-duplicated', 'C03/scan-left-a-key-on-both-sides', not (in_s and in_d), wit))
+            if in_d: items.append(('value-transferred-unaltered', 'C03/scan-altered-a-value', X.bytes_eq(dst.db[k][0], vals[k]), wit))
+        if finished:
+            items.append(('scan-finishes-only-when-source-is-empty', 'C03/scan-reports-finished-with-keys-left-on-source', not src.db, wit))
+        ctx.require_all(e, items)
+        ctx.sample({'scenario': 'scan pass', 'trace': trace, 'src_log': [str(x) for x in src.log][:12], 'dst_log': [str(x) for x in dst.log][:12]})
+        return len(trace)
+    res = ctx.explore('scan pass keys=%s holds=%d calls=%d' % ([k.decode() for k in names], job['holds'], job['calls']), run, engine_setup=setup, max_paths=200000)
+    ctx.ops += sum(p.value or 0 for p in res if p.kind == 'ok')
+
+
 def first_task(e, req):
     req = un(req)
     return req.f[0].v if e.src.enums['ReqTask'][req.variant] == 'Simple' else deref_vec(req.f[0].v).cells[0].v
 
 
 def worker(ctx, job):
-    pull_path(ctx, job)
+    if job.get('kind') == 'scan': scan_pass(ctx, job)
+    else: pull_path(ctx, job)
 
 
 def run(ctx):
@@ -294,12 +392,14 @@ def run(ctx):
                 jobs.append({'initial': initial, 'ops': ops, 'steps': 16 if quick else 20, 'scan': True})
     for ops in (['GET'], ['SET', 'GET'], ['APPEND', 'GET']):
         jobs.append({'initial': 'src', 'ops': ops, 'steps': 14, 'restore_fault': 8 if quick else 12})
-    ctx.bounds = {'keys': 'one key', 'client operations': '<= 3 of GET / SET / APPEND / DEL issued one after the other (each waits for its reply)', 'initial placement': ['source only', 'destination only', 'nowhere'],
+    jobs.append({'kind': 'scan', 'keys': [b'ka', b'kb'], 'holds': 1, 'calls': 4})
+    jobs.append({'kind': 'scan', 'keys': [b'ka', b'kb', b'kc'], 'holds': 1 if quick else 2, 'calls': 5 if quick else 6})
+    ctx.bounds = {'scan pass': '2-3 keys, SCAN batches of any size, <= 2 lock slots held by other requests during a pass, <= 6 passes', 'keys': 'one key', 'client operations': '<= 3 of GET / SET / APPEND / DEL issued one after the other (each waits for its reply)', 'initial placement': ['source only', 'destination only', 'nowhere'],
                   'environment': 'answers of source Redis / destination Redis / source proxy (UMSYNC) one queued request at a time in any order; scan of the key (DUMP, RESTORE without REPLACE, DEL) at any points; refused RESTORE with symbolic error text',
                   'value bytes': 'symbolic'}
     ctx.assumptions += ['stand-ins: source Redis, destination Redis (EXISTS / DUMP / PTTL / RESTORE without REPLACE -> BUSYKEY iff the key exists / DEL / GET / SET / APPEND), source proxy (UMSYNC key: moves the key if still present and deletes it locally)',
                         'the source proxy serialises UMSYNC and its scan of the same key by its key lock (scan DUMP..DEL excludes UMSYNC)', 'a Multi request is answered as one pipeline on one connection',
                         'a Redis only answers BUSYKEY to RESTORE when the key exists; any other refusal text is symbolic', 'DUMP payload = the value bytes (serialisation format is opaque to the proxy)']
-    ctx.not_explored += ['concurrent client operations on the same key (operations are sequential here)', 'the source side (scan_task.rs / scan_migration.rs: SCAN loop, SlotMutex, PRECHECK/PRESWITCH/FINALSWITCH handshake) beyond the atomic stand-ins',
+    ctx.not_explored += ['concurrent client operations on the same key (operations are sequential here)', 'the source side beyond one scan loop over scan_and_migrate_keys (handle_sync_task, keep_migrating timing, PRECHECK/PRESWITCH/FINALSWITCH handshake of scan_task.rs)',
                          'several keys sharing a lock slot', 'expiry during the transfer (ttl conversion: C19)', 'redirect modes, backend connection counts', 'the commit of the migration and stopping of the task handler (run_task_handler select! cascade)']
     ctx.run_parallel(jobs, worker)
